@@ -199,4 +199,4 @@ ASSUME = [
 if __name__ == '__main__':
     tier = sys.argv[1] if len(sys.argv) > 1 else 'quick'
     sys.exit(run_check('C01', tier, layers('C01', tier), assumptions=ASSUME,
-                       cap_s=240 if tier == 'quick' else 6000))
+                       cap_s=900 if tier == 'quick' else 7200))
